@@ -316,6 +316,50 @@ func one(run *kit.Run, c caseFile, prog []hist.Op, k int, ending, id string) {
 		if got := w.Observe(w.F); got != want {
 			fail("settled-usable", "using the settled transaction changed the router\n%s", hist.Diff(want, got))
 		}
+		// the finished handle stays finished while LATER transactions are open: it keeps refusing use, its no-op Commit and
+		// Abort do not touch the live transaction, and the live transaction's writes are published
+		if ending != "commit-unmanaged" && ending != "abort-unmanaged" {
+			old := txn
+			var inner string
+			done := kit.Completes(20*time.Second, func() {
+				defer func() {
+					if p := recover(); p != nil {
+						inner = fmt.Sprintf("the later transaction panicked: %v", p)
+					}
+				}()
+				err := w.F.Updates(func(t2 *fox.Txn) error {
+					if _, err := t2.Handle("GET", "/verif-second-txn", func(fox.Context) {}); err != nil {
+						return err
+					}
+					func() {
+						defer func() {
+							if e, ok := recover().(error); !ok || !errors.Is(e, fox.ErrSettledTxn) {
+								inner = "Has on the finished handle did not refuse with ErrSettledTxn while a later transaction was open"
+							}
+						}()
+						old.Has("GET", "/verif-second-txn")
+					}()
+					old.Abort()
+					old.Commit()
+					if !t2.Has("GET", "/verif-second-txn") {
+						inner = "the later transaction lost its own write after the finished handle was aborted/committed again"
+					}
+					return nil
+				})
+				if err != nil && inner == "" {
+					inner = fmt.Sprintf("the later transaction failed: %v", err)
+				}
+			})
+			if done {
+				if inner == "" && !w.F.Has("GET", "/verif-second-txn") {
+					inner = "the later transaction returned nil but its write is not published"
+				}
+				if inner != "" {
+					fail("settled-usable", "%s", inner)
+				}
+				_, _ = w.F.Delete("GET", "/verif-second-txn")
+			}
+		}
 		// a new write transaction is admitted
 		ok := kit.Completes(20*time.Second, func() {
 			_, _ = w.F.Handle("GET", "/verif-lock-probe", func(fox.Context) {})
